@@ -260,6 +260,11 @@ func RunC14(env *Env, rep *Report) {
 			cases = append(cases, c14MartCase(l, true))
 		}
 	}
+	for _, kind := range []string{"movement", "mart"} {
+		for _, sel := range []string{"empty-brace", "two-brace", "one-colon", "fallback"} {
+			cases = append(cases, c14PoryswitchCase(kind, sel))
+		}
+	}
 	rep.Technique = "symbolic execution of the real movement/mart parsers and emitters (go/ssa) with symbolic step/item names and symbolic multipliers; accept/reject boundary and copy counts decided by the solver over the integers (z3)"
 	rep.Explanation = "Bounded symbolic verification, not a proof. Every step / item list up to the length bound (entries: step, step with comma, 'step * N', an explicit terminator) in a movement statement, in moves() and in a mart (with and without a constant whose value may be the terminator) is compiled by symbolic execution of the real code. Step and item names are symbolic (whether a name equals step_end / ITEM_NONE is a solver-decided fork), and every multiplier N is an unconstrained symbolic integer: the comparisons N<=0 and N>9999 and the expansion loop's trip count are decisions over N, so the accept/reject boundary is decided for ALL integers and the copy count for N up to the unrolling bound (paths needing more iterations are cut and counted as beyond the bound). Asserted per path: error iff some multiplier is outside 1..9999; otherwise exactly N copies in source order, nothing after the first terminator, exactly one terminator, '.align 2' and '.2byte' form for marts."
 	rep.Bounds = map[string]interface{}{"max_list_length": maxLen, "multiplier_unroll": unroll, "max_multipliers_per_list": map[string]int{"quick": 1, "thorough": 2}[env.Tier], "cases": len(cases)}
@@ -285,4 +290,62 @@ func RunC14(env *Env, rep *Report) {
 		return cs
 	})
 	env.RunJobs(len(cases), rep, func(w *Worker, i int) { w.RunCase(cases[i], rep) })
+}
+
+// c14PoryswitchCase: a list with a poryswitch in the middle; the selected
+// case contributes exactly its entries (possibly none).
+func c14PoryswitchCase(kind, sel string) *Case {
+	atoms := &AtomTable{Coded: true}
+	name := atoms.New(ClsUserName, "name", "names")
+	key := atoms.New(ClsIdent, "swkey", "")
+	val := atoms.New(ClsIdent, "swval", "swvals", "_")
+	other := atoms.New(ClsIdent, "swother", "swvals", "_")
+	term := map[string]string{"movement": "step_end", "mart": "ITEM_NONE"}[kind]
+	mk := func() *Atom { return atoms.New(ClsIdent, "entry", "entries", term) }
+	first, last := mk(), mk()
+	a1, a2, d1 := mk(), mk(), mk()
+	var selCase string
+	var selected []*Atom
+	caseLabel := val
+	switch sel {
+	case "empty-brace":
+		selCase = " {\n}"
+	case "two-brace":
+		selCase, selected = " {\n"+a1.Placeholder()+"\n"+a2.Placeholder()+"\n}", []*Atom{a1, a2}
+	case "one-colon":
+		selCase, selected = ": "+a1.Placeholder(), []*Atom{a1}
+	case "fallback":
+		caseLabel = other
+		selCase, selected = ": "+a1.Placeholder(), []*Atom{d1}
+	}
+	src := fmt.Sprintf("%s %s {\n%s\nporyswitch(%s) {\n%s%s\n_: %s\n}\n%s\n}", kind, name.Placeholder(), first.Placeholder(), key.Placeholder(), caseLabel.Placeholder(), selCase, d1.Placeholder(), last.Placeholder())
+	prog := &Program{Atoms: atoms, Tops: []interface{}{&TopRaw{Text: src}}}
+	variants := []Variant{{Name: "opt", Opt: CompileOpts{Optimize: true, SwKeys: []Tok{A(key)}, SwVals: []Tok{A(val)}}}}
+	cs := &Case{Name: fmt.Sprintf("c14/%s/poryswitch/%s", kind, sel), Prog: prog, Variants: variants, NonTrivial: true, Shape: c14Shape{Kind: kind, Entries: []string{"poryswitch:" + sel}}, MaxPaths: 64}
+	cs.Oracle = func(x *OracleCtx) *Violation {
+		res := x.Res["opt"]
+		if res.Err.IsErr || res.Err.Panic != "" {
+			return &Violation{Sub: "accept", Msg: "rejected: " + interp.ToString(res.Err.Msg) + res.Err.Panic}
+		}
+		entries := append(append([]*Atom{first}, selected...), last)
+		var want []interp.Value
+		if kind == "mart" {
+			want = append(want, "\t.align 2")
+		}
+		want = append(want, cat(name.Val, ":"))
+		for _, e := range entries {
+			if kind == "mart" {
+				want = append(want, cat("\t.2byte ", e.Val))
+			} else {
+				want = append(want, cat("\t", e.Val))
+			}
+		}
+		if kind == "mart" {
+			want = append(want, "\t.2byte ITEM_NONE")
+		} else {
+			want = append(want, "\tstep_end")
+		}
+		return expectLines(x, kind, "output", nonBlank(outputLines(res.Out, false)), want)
+	}
+	return cs
 }
